@@ -57,6 +57,8 @@ package linker
 //    unconditionally, the asset path mixed into the hash is the path relative to the output directory (the
 //    text that ends up in the file), and the chunk's own isolated hash is always mixed in.
 //@ hashed isolated-hash C18: func=(*linkerContext).generateIsolatedHash ; in=linker ; sink=hashWriteLengthPrefixed:1,hashWriteUint32:1,Write:0 ; scenario=hash_placeholder_targets ; must=outputPiece.data>hashWriteLengthPrefixed,partRange.partIndexBegin,partRange.partIndexEnd,partRange.sourceIndex,PathTemplate.Data>hashWriteLengthPrefixed,Options.PublicPath>hashWriteLengthPrefixed,outputPiece.kind,outputPiece.index
+// the comment appended AFTER hashing ("//# sourceMappingURL=…", "/*! For license information please see … */") depends on these options
+//@ hashed trailing-comment-options C18: func=(*linkerContext).generateIsolatedHash ; in=linker ; sink=hashWriteLengthPrefixed:1,hashWriteUint32:1,Write:0 ; must=Options.LegalComments,Options.SourceMap
 //@ hashed legal-comments C18: func=(*linkerContext).generateIsolatedHash ; in=linker ; sink=hashWriteLengthPrefixed:1,hashWriteUint32:1,Write:0 ; scenario=legal_comments_hash ; must=chunkInfo.externalLegalComments>hashWriteLengthPrefixed
 //@ unguarded visit-every-import C18: func=(*linkerContext).appendIsolatedHashesForImportedChunks ; in=linker ; site=call appendIsolatedHashesForImportedChunks ; allow=false:visited[chunkIndex]==visitedKey ; argpath=2:c.chunks[chunkIndex].crossChunkImports[*].chunkIndex
 // the prefix written before a byte string is that string's own length (so "a"+"bc" and "ab"+"c" hash differently)
@@ -271,3 +273,8 @@ package linker
 // chunk's unique key and "after" by the text actually written.
 //@ flow placeholder-resolves-to-its-target C18: func=(*linkerContext).substituteFinalPaths ; in=linker ; site=call AddString ; argpath=1:call modifyPath(c.chunks[*.pieces[*].index].finalRelPath) OR call modifyPath(call ReplaceAll(call Rel(*,c.graph.Files[*.pieces[*].index].InputFile.AdditionalFiles[0].AbsPath)#0,*))
 //@ flow shift-before-is-the-placeholder C18 C07: func=(*linkerContext).substituteFinalPaths ; in=linker ; site=call AdvanceString ; argpath=1:c.chunks[*.pieces[*].index].uniqueKey OR c.graph.Files[*.pieces[*].index].InputFile.UniqueKeyForAdditionalFile OR call modifyPath(*)
+
+// C19: "outputs[..].exports" of an entry-point chunk must be the names the emitted file really exports, i.e. the
+// filtered list the code generator prints (ambiguous `export *` names and re-exported TypeScript types are
+// dropped there), not the unfiltered table of resolved exports.
+//@ hashed metafile-exports-are-the-emitted-exports C19: func=(*linkerContext).generateChunkJS ; in=linker ; sink=AddString:1 ; scenario=metafile_ambiguous_export ; must=JSReprMeta.SortedAndFilteredExportAliases>AddString
